@@ -78,12 +78,16 @@ def expected(model):
     return cols
 
 
-def gen_model(rng, max_rows=30):
+def gen_model(rng, max_rows=30, big=False):
     others = list(POOL)
+    if big:
+        # many channels: the declarations + header + first row are several kB (real mud-log files have 60..200 channels)
+        others += [(f'CH{k:03d}', f'Channel number {k} of the mud log', rng.pick(['m', 'bar', 'ppm', 'l/min', 'g/cc'])) for k in range(rng.randrange(90, 170))]
+        max_rows = min(max_rows, 3)
     rng.shuffle(others)
-    n_decl = rng.randrange(1, min(len(others), 10) + 1)
+    n_decl = rng.randrange(1, min(len(others), 10) + 1) if not big else rng.randrange(90, len(others) + 1)
     declared = others[:n_decl]
-    used_n = rng.randrange(1, n_decl + 1)
+    used_n = rng.randrange(1, n_decl + 1) if not big else rng.randrange(max(1, n_decl - 20), n_decl + 1)
     used = declared[:used_n]
     rng.shuffle(used)
     decls = [{'name': n, 'desc': d, 'units': u, 'sep': rng.pick([' ', ' ', '\t'])} for n, d, u in BASE + declared]
